@@ -54,10 +54,10 @@ TS0  == [inMesh |-> FALSE, graft |-> 0, meshTime |-> 0, fmd |-> 0, mmd |-> 0,
          active |-> FALSE, mfp |-> 0, imd |-> 0]
 Rec0 == [st |-> "none", validated |-> 0, peers |-> {}, expire |-> 0]
 
-Min(a, b) == IF a < b THEN a ELSE b
-Max(a, b) == IF a > b THEN a ELSE b
+MinI(a, b) == IF a < b THEN a ELSE b
+MaxI(a, b) == IF a > b THEN a ELSE b
 Sq(x) == x * x
-Range(f) == {f[i] : i \in DOMAIN f}
+RangeOf(f) == {f[i] : i \in DOMAIN f}
 
 RECURSIVE SumOver(_, _)
 SumOver(D, f) == IF D = {} THEN 0
@@ -78,41 +78,45 @@ SInit(p0) ==
 -----------------------------------------------------------------------------
 (* THE SCORING FUNCTION (GossipSub v1.1, "Peer Scoring") *)
 
+\* per topic components, as functions of a counter record s of topic t
 \* P1 time in mesh: quantised, capped, only while in the mesh
-C1(p, t) == LET s == ts[p][t] IN
-    IF s.inMesh THEN Min(s.meshTime \div TP(t).q, TP(t).c1) * TP(t).w1 * S2 ELSE 0
+V1(s, t) == IF s.inMesh THEN MinI(s.meshTime \div TP(t).q, TP(t).c1) * TP(t).w1 * S2 ELSE 0
 \* P2 first message deliveries (the counter is capped and decays)
-C2(p, t) == ts[p][t].fmd * S * TP(t).w2
+V2(s, t) == s.fmd * S * TP(t).w2
 \* P3 mesh message delivery deficit, squared, once activated
-C3(p, t) == LET s == ts[p][t] IN
-    IF s.active /\ s.mmd < TP(t).thr * S THEN Sq(TP(t).thr * S - s.mmd) * TP(t).w3 ELSE 0
+V3(s, t) == IF s.active /\ s.mmd < TP(t).thr * S THEN Sq(TP(t).thr * S - s.mmd) * TP(t).w3 ELSE 0
 \* P3b sticky mesh failure penalty
-C3b(p, t) == ts[p][t].mfp * TP(t).w3b
+V3b(s, t) == s.mfp * TP(t).w3b
 \* P4 invalid messages, squared
-C4(p, t) == Sq(ts[p][t].imd) * TP(t).w4
+V4(s, t) == Sq(s.imd) * TP(t).w4
 
+ScoredTopics == Topics \cap DOMAIN par.topics
+Capped(x) == IF par.cap > 0 /\ x > par.cap * S2 THEN par.cap * S2 ELSE x
+
+C1(p, t) == V1(ts[p][t], t)
+C2(p, t) == V2(ts[p][t], t)
+C3(p, t) == V3(ts[p][t], t)
+C3b(p, t) == V3b(ts[p][t], t)
+C4(p, t) == V4(ts[p][t], t)
 TopicScore(p, t) == TP(t).tw * (C1(p, t) + C2(p, t) + C3(p, t) + C3b(p, t) + C4(p, t))
-TopicSum(p) == SumOver(Topics \cap DOMAIN par.topics, [t \in Topics \cap DOMAIN par.topics |-> TopicScore(p, t)])
-TopicPart(p) == IF par.cap > 0 /\ TopicSum(p) > par.cap * S2 THEN par.cap * S2 ELSE TopicSum(p)
+TopicSum(p) == SumOver(ScoredTopics, [t \in ScoredTopics |-> TopicScore(p, t)])
+TopicPart(p) == Capped(TopicSum(p))
 
 \* P5 application specific score
 C5(p) == app[p] * par.appW * S2
 \* P6 IP colocation: squared surplus over the threshold, summed over the peer's non whitelisted IPs
 PeersOnIP(ip) == Cardinality({q \in tracked : ip \in ips[q]})
-Surplus(p) == LET I == ips[p] \ Range(par.wl) IN
-    SumOver(I, [ip \in I |-> Sq(Max(PeersOnIP(ip) - par.ipThr, 0))])
+Surplus(p) == LET I == ips[p] \ RangeOf(par.wl) IN
+    SumOver(I, [ip \in I |-> Sq(MaxI(PeersOnIP(ip) - par.ipThr, 0))])
 C6(p) == Surplus(p) * par.ipW * S2
 \* P7 behaviour penalty: squared excess over the threshold
 C7(p) == IF pen[p] > par.penThr * S THEN Sq(pen[p] - par.penThr * S) * par.penW ELSE 0
 
 Score(p) == IF p \notin tracked THEN 0 ELSE TopicPart(p) + C5(p) + C6(p) + C7(p)
 
-\* what the score would be without the penalty components (used on observed counters)
-PositivePart(p) ==
-    IF p \notin tracked THEN 0
-    ELSE LET D == Topics \cap DOMAIN par.topics
-             sum == SumOver(D, [t \in D |-> TP(t).tw * (C1(p, t) + C2(p, t))])
-         IN (IF par.cap > 0 /\ sum > par.cap * S2 THEN par.cap * S2 ELSE sum) + C5(p)
+\* the score of a tracked peer without its penalty components, from counter records T[t]
+PositiveOf(p, T) == Capped(SumOver(ScoredTopics, [t \in ScoredTopics |-> TP(t).tw * (V1(T[t], t) + V2(T[t], t))])) + C5(p)
+PositivePart(p) == IF p \notin tracked THEN 0 ELSE PositiveOf(p, ts[p])
 
 -----------------------------------------------------------------------------
 (* EVENTS *)
@@ -169,9 +173,9 @@ DoValidate(id) ==
 
 \* counter increments: +1 then cap
 FirstOn(s, t) ==
-    LET s1 == [s EXCEPT !.fmd = Min(@ + S, TP(t).c2 * S)]
-    IN IF s.inMesh THEN [s1 EXCEPT !.mmd = Min(@ + S, TP(t).c3 * S)] ELSE s1
-NearFirstOn(s, t) == IF s.inMesh THEN [s EXCEPT !.mmd = Min(@ + S, TP(t).c3 * S)] ELSE s
+    LET s1 == [s EXCEPT !.fmd = MinI(@ + S, TP(t).c2 * S)]
+    IN IF s.inMesh THEN [s1 EXCEPT !.mmd = MinI(@ + S, TP(t).c3 * S)] ELSE s1
+NearFirstOn(s, t) == IF s.inMesh THEN [s EXCEPT !.mmd = MinI(@ + S, TP(t).c3 * S)] ELSE s
 InvalidOn(s, n) == [s EXCEPT !.imd = @ + n * S]
 
 \* DeliverMessage: first delivery by p; peers that forwarded the message while it was being
@@ -241,7 +245,7 @@ DoPenalty(p, n) ==
 
 \* one decay step: multiply by 1/d, then decay-to-zero (z in the unit of v)
 Decay(v, d, z) == LET w == v \div d IN IF w < z THEN 0 ELSE w
-DecayExact(v, d, z) == v % d = 0 \/ (v \div d) < z
+DecayExact(v, d, z) == IF v % d = 0 THEN TRUE ELSE (v \div d) < z   \* (IF, not \/: TLC would branch on a disjunction inside an action)
 
 DecayTopic(s, t) ==
     LET a == [s EXCEPT !.fmd = Decay(@, TP(t).d2, par.dtz),
@@ -297,7 +301,7 @@ DoSetTopicParams(t, tp) ==
     /\ par' = [par EXCEPT !.topics = [u \in DOMAIN par.topics \cup {t} |-> IF u = t THEN tp ELSE par.topics[u]]]
     /\ ts' = IF Scored(t)
                THEN [p \in Peers |-> IF p \in tracked
-                        THEN [ts[p] EXCEPT ![t] = [@ EXCEPT !.fmd = Min(@, tp.c2 * S), !.mmd = Min(@, tp.c3 * S)]]
+                        THEN [ts[p] EXCEPT ![t] = [@ EXCEPT !.fmd = MinI(@, tp.c2 * S), !.mmd = MinI(@, tp.c3 * S)]]
                         ELSE ts[p]]
                ELSE ts
     /\ UNCHANGED <<now, tracked, conn, expire, pen, ips, app, rec>>
@@ -305,6 +309,24 @@ DoSetTopicParams(t, tp) ==
 DoTick(dt) ==
     /\ now' = now + dt
     /\ UNCHANGED <<par, tracked, conn, expire, pen, ips, app, ts, rec>>
+
+\* an event given as a record (the format of generated histories and of recorded traces)
+Apply(e) ==
+    CASE e.e = "connect"    -> DoConnect(e.p, RangeOf(e.ips))
+      [] e.e = "disconnect" -> DoDisconnect(e.p)
+      [] e.e = "graft"      -> DoGraft(e.p, e.t)
+      [] e.e = "prune"      -> DoPrune(e.p, e.t)
+      [] e.e = "validate"   -> DoValidate(e.id)
+      [] e.e = "deliver"    -> DoDeliver(e.id, e.p, e.t)
+      [] e.e = "reject"     -> DoReject(e.id, e.p, e.t, e.reason)
+      [] e.e = "duplicate"  -> DoDuplicate(e.id, e.p, e.t)
+      [] e.e = "penalty"    -> DoPenalty(e.p, e.n)
+      [] e.e = "refresh"    -> DoRefresh
+      [] e.e = "gc"         -> DoGC
+      [] e.e = "setapp"     -> DoSetApp(e.p, e.v)
+      [] e.e = "setips"     -> DoSetIPs(e.p, RangeOf(e.ips))
+      [] e.e = "setparams"  -> DoSetTopicParams(e.t, e.tp)
+      [] e.e = "tick"       -> DoTick(e.dt)
 
 -----------------------------------------------------------------------------
 (* PROPERTIES over the model state (the trace specification evaluates the same
